@@ -10,8 +10,8 @@ package querylog
 //vx:stub unicode.SimpleFold vxC07SimpleFold
 //vx:entry vxC07TermSym reach=strict-hit,strict-miss,substring-hit,substring-miss,quick-dropped
 //vx:note Status: symbolic reason (any int) and isFiltered against a table transcribed from AGHTechDoc "response_status" / openapi; 10 documented statuses + 4 unknown strings; "processed" is not asserted for block-list reasons without the filtered flag (undefined in the documents)
-//vx:note TermSym (the solver decides): one field (host, client name or ClientID) of 1..2 (quick) / 1..3 (thorough) symbolic ASCII bytes, term of 1..2 symbolic ASCII bytes, quoted or not, client address "::1"; reference = ASCII case-insensitive containment / equality as one formula.  unicode.SimpleFold is replaced on symbolic runes by the exact folding orbits of ASCII (incl. k-K-Kelvin sign, s-S-long s): without it the engine does not bound the orbit loop of equalFoldRune.  Quick pre-match on the framed line for field bytes that json.Marshal writes unescaped
-//vx:note Term (concrete companion, no solver): every field value of 1..2 (quick) / 1..3 (thorough) bytes and every term of 1..2 bytes over one representative per fold class (quick aKsZ1.@{ / thorough aAkKsSzZ1.@[`{), three address forms, full match vs reference and quick pre-match vs full match
+//vx:note TermSym (the solver decides): one field (host, client name or ClientID) of 1..2 symbolic ASCII bytes (both tiers), term of 1..2 symbolic ASCII bytes, quoted or not, client address "::1"; reference = ASCII case-insensitive containment / equality as one formula.  unicode.SimpleFold is replaced on symbolic runes by the exact folding orbits of ASCII (incl. k-K-Kelvin sign, s-S-long s): without it the engine does not bound the orbit loop of equalFoldRune.  Quick pre-match on the framed line for field bytes that json.Marshal writes unescaped
+//vx:note Term (concrete companion, no solver): every field value of 1..2 bytes and every term of 1..2 bytes over one representative per fold class (quick aKsZ1.@{ / thorough aAkKsSzZ1.@[`{), three address forms, full match vs reference and quick pre-match vs full match
 //vx:note outside: non-ASCII terms and names (Unicode folding, IDN conversion of the term by parseSearchCriterion/idna), asciiVal
 //vx:entry vxC07Term reach=strict-hit,strict-miss,substring-hit,substring-miss,by-host,by-name,by-clientid,by-ip,quick-dropped
 
@@ -165,7 +165,6 @@ func vxC07Term() {
 	maxField, maxTerm := 2, 2
 	vxC07Sigma = vxC07SigmaQuick
 	if vx.Thorough() {
-		maxField = 3
 		vxC07Sigma = vxC07SigmaFull
 	}
 	which := vx.Choice("field", 4)
@@ -323,10 +322,8 @@ func vxC07AssumeASCII(s string) {
 // symbolic (any ASCII byte): the solver decides whether some field / term pair
 // is selected wrongly.
 func vxC07TermSym() {
+	// (3-byte fields cost 2000 s and exhaust the solver: same bounds in both tiers)
 	maxField, maxTerm := 2, 2
-	if vx.Thorough() {
-		maxField = 3
-	}
 	which := vx.Choice("field", 3)
 	f := vx.String("value", 1+vx.Choice("valueLen", maxField))
 	vxC07AssumeASCII(f)
